@@ -674,9 +674,10 @@ package vuego
 //@   holds ctx.stack
 //@   ensures C04+C05.balance: BALANCED(ctx)
 //@   loop 0 invariant C05.balance.loop: BALANCED(ctx)
-//@   loop 5 invariant C05.balance.loop: BALANCED(ctx)
+//@   loop 4 invariant C05.balance.loop: BALANCED(ctx)
 //@   loop 3 invariant C05.required.scan: 0 <= $i && $i <= len(requiredAttrs) && forall ri int :: 0 <= ri && ri < $i ==> (requiredAttrs[ri] in componentData)
 //@   assert C01+C04.include.attrs.private: fresh($arg1) && $arg1 != nil at "call evalAttributes"
+//@   assert C09+C10+C11.template.vhtml.private: fresh($arg1) && $arg1 != nil at "call evalVHtml"
 //@   assert C05.required.checked: forall ri int :: 0 <= ri && ri < len(requiredAttrs) ==> (requiredAttrs[ri] in componentData) at "call evalVHtml"
 
 // ---- component shorthand tags (C05): every element whose tag is registered becomes <template include=file> ----
